@@ -17,3 +17,17 @@ LEVEL_TEXT = ('Bounded model checking of the real Range fix-up code for characte
               'DocumentFragment nodes and ALL 62-bit offsets, lengths and edit sizes the boundary points end where DOM Range specifies and remain valid.')
 LEVEL_NOTE = ('NOT claimed: node insertion/removal fix-up (updateRangeForInsertedNode/DeletedNode), NodeIterator/TreeWalker/deep node lists/getElementById/XPath results, range content operations (extract/clone/delete/surround). '
               'The fix-up functions are driven directly with the arguments of their call sites in DOMCharacterDataImpl/DOMTextImpl (the call sites themselves sit behind a virtual call on the document object that could not be encoded, see C13).')
+
+# end-to-end: real insertData/deleteData/replaceData with a live Range registered on the document
+CLAIMS.update({'rangeedit_' + o: 'DOMTextImpl::%s (real call sites) with one live Range in the node: boundary points end where DOM Range puts them, stay valid; refused edits leave the Range untouched' % f
+               for o, f in [('insert', 'insertData'), ('delete', 'deleteData'), ('replace', 'replaceData')]})
+ASSUMPTIONS += ['rangeedit: both boundary points of the Range lie in the edited text node; content <= N units, inserted string <= 2 units; document arena/string pool/buffer growth cut as in C13']
+EOPS = {1: 'insert', 2: 'delete', 3: 'replace'}
+HARNESSES += [
+ dict(name='rangeedit_' + EOPS[op], entry='harness_rangeedit', srcs=['C14/rangeedit.cpp', 'C13/domstubs.cpp'],
+      tus=['dom/impl/DOMRangeImpl.cpp', 'dom/impl/DOMTextImpl.cpp', 'dom/impl/DOMCharacterDataImpl.cpp', 'dom/impl/DOMNodeImpl.cpp', 'dom/impl/DOMChildNode.cpp', 'dom/impl/DOMStringPool.cpp', 'util/XMLString.cpp'],
+      cuts_everywhere=['_ZN11xercesc_4_015DOMDocumentImpl15getPooledStringEPKDs'],
+      cuts=['_ZN11xercesc_4_09DOMBuffer14expandCapacityEmb', '_ZN11xercesc_4_020DOMCharacterDataImplC[12]EPNS_11DOMDocumentEPKDs', '_ZN11xercesc_4_020DOMCharacterDataImplD[12]Ev'],
+      defs={'quick': {'N': 2, 'OP': op}, 'thorough': {'N': 3, 'OP': op}}, unwind={'quick': 6, 'thorough': 8}, timeout={'quick': 900, 'thorough': 2400}, mem_gb=14, unwind_gentle=True, unwind_cap=24)
+ for op in (1, 2, 3)
+]
